@@ -94,6 +94,9 @@ func itemTab(n int) []Item {
 	for i := range t {
 		t[i] = Item{P: i/3 - n/6, ID: i}
 	}
+	if n >= 4 {
+		t[n-1] = Item{} // the zero value of the element type
+	}
 	return t
 }
 
